@@ -11,6 +11,14 @@ NOTE = ("Trusted base: the frozen effect / identity tables in kdverif (one reaso
         "the value-level behaviour of the property (see DESIGN.md section 4, 'N' lists).")
 
 CLAIMS = {
+    "C03": ("RNG-source typing, falsy-zero default analysis against the constructor's own validators, loop-progress guards, dependence sets",
+            "Decides for the 10 selection-wrapper constructors: generators are default_rng(seed=<seed parameter>), the global "
+            "NumPy RNG (np.random / GlobalRng) is bound or drawn from only under 'seed is None', a class object used as a "
+            "generator is only asked for class-level attributes; no 'p = p or D' with non-zero D on an argument for which "
+            "the constructor's own validation admits 0; every 'while v > 0' loop decrements by a positive constant or by "
+            "the number taken from a pool whose non-emptiness is guarded before the loop; the indices handed to the subset "
+            "base depend on every constructor argument (assert-only arguments exempt); no unbound names. The index list "
+            "as a value (multiset / permutation / partition) is not decided."),
     "C02": ("index-space typing of the layer accessors, translation summaries compared between siblings, chain-continuation analysis",
             "Decides: KDSubset calls the wrapped accessor with self.indices[idx] and re-indexes the wrapped bulk result by "
             "self.indices in subset order (also the sampler weights); KDConcatDataset takes (part, local) from "
